@@ -150,7 +150,66 @@ func H_C08(na, mode int) {
 	if mode == 1 {
 		limit = vconcrete(nondetInt(0, n))
 	}
-	r := &schedReader{data: cloneBytes(in), limit: limit, fault: mode == 1}
+	c08Compare(in, &schedReader{data: cloneBytes(in), limit: limit, fault: mode == 1}, limit, mode)
+}
+
+// menuReader delivers the data in reads whose sizes come from a short menu chosen
+// by the solver (the destination size is always respected), then io.EOF.
+type menuReader struct {
+	data  []byte
+	pos   int
+	menu  []int
+	calls int
+}
+
+func (r *menuReader) Read(p []byte) (int, error) {
+	if r.pos >= len(r.data) {
+		return 0, io.EOF
+	}
+	c := len(r.data) - r.pos
+	if r.calls < 2 {
+		// only the first two reads choose; later ones deliver as much as fits
+		c = r.menu[vconcrete(nondetInt(0, len(r.menu)-1))]
+	}
+	r.calls++
+	if c > len(r.data)-r.pos {
+		c = len(r.data) - r.pos
+	}
+	if c > len(p) {
+		c = len(p)
+	}
+	copy(p, r.data[r.pos:r.pos+c])
+	r.pos += c
+	return c, nil
+}
+
+// H_C08_big(k, fill): buffer-growth arithmetic of readline/padNulls. The input is
+// one symbolic byte, k copies of a filler (fill 0: NUL, which triples in the
+// buffer; fill 1: 'x'; fill 2: CR LF pairs), then "a" LF "b"; the sizes of the
+// first two reads come from a menu around the 8 KiB chunk size. Compared with
+// in-memory Parse exactly as H_C08.
+func H_C08_big(k, fill int) {
+	in := alphaBytes(1, c08Alphabet)
+	for i := 0; i < k; i++ {
+		switch fill {
+		case 0:
+			in = append(in, 0)
+		case 1:
+			in = append(in, 'x')
+		default:
+			if i%2 == 0 {
+				in = append(in, '\r')
+			} else {
+				in = append(in, '\n')
+			}
+		}
+	}
+	in = append(in, "a\nb"...)
+	menu := []int{1, 3, 8191, 8192, len(in)}
+	c08Compare(in, &menuReader{data: cloneBytes(in), menu: menu}, len(in), 0)
+}
+
+func c08Compare(in []byte, r io.Reader, limit, mode int) {
 	p := NewBlockParser(r)
 	refs := make(ReferenceMap)
 	var sb []*RootBlock
@@ -260,6 +319,10 @@ var c14Templates = []string{
 	"> a\n" + hA + hA,                       // 5
 	"a\n\n    b\n" + hA,                    // 6
 	"~~~\n" + hA + hA + "\n~~~" + hA,        // 7
+	"a  \n" + hA,                            // 8: hard line break (two spaces), next line
+	"a\\\n" + hA,                           // 9: hard line break (backslash), next line
+	"- a  \n  " + hA + "\n",                 // 10: hard line break inside a list item
+	"`a\n" + hA + "`\n",                     // 11: line ending inside a code span
 }
 
 var c14Pads = []string{"\n", " \n", "\r\n", "\t\n\n", "\r"}
